@@ -3,6 +3,7 @@
 -/
 import AnyVecModel.Proofs.Exec
 import AnyVecModel.Props.Hist
+import AnyVecModel.Proofs.KernelClone
 namespace AnyVec
 namespace C08
 open World
@@ -105,6 +106,44 @@ theorem history_clone_core (cfg : Cfg) (w : World) (hr : Hist.Reach cfg w) (v : 
     (hv : Hist.liveCloneable w.vecs v) :
     (runStep cfg (.clone v) f w).1.Inv ∧ (runStep cfg (.clone v) f w).2.notUb :=
   Hist.runStep_inv cfg (.clone v) f w (Hist.reach_inv_core cfg w hr) trivial hv
+
+/-! ### tie to the source text -/
+
+/-- **source tie**: the model's `clone()` is `AnyVecRaw::clone` of `/repo/src/any_vec_raw.rs` as re-translated on this
+run: `clone_empty()`, `reserve(len)`, the clone function over `[0, len)` from the source's storage into the new
+one's, and only then `len := self.len` (so a panicking `T::clone` leaves a vector of length 0 to be dropped);
+`clone_fn::<T>` (`/repo/src/clone_type.rs`) is one `T::clone` per element in increasing order; the cloning
+constructors take `type_id`, `drop_fn` and `clone_fn` from the source, `len: 0`, and the storage from the target
+`MemBuilder`. -/
+theorem clone_is_the_source (w : World) (v : Nat) (x : VecSt) (hv : w.vecs[v]? = some x) (hl : x.live = true)
+    (hc : x.cloneable = true) (n : Nat) :
+    cloneVec v w =
+      (match Gen.Kernel.clone_cmds x.len with
+       | .cloneEmpty :: rest => do
+         let idx ← cloneEmptyIn v x.bk
+         WM.onUnwind (KernelTie.runCmds { v := idx, src := v } rest) (do setLen idx 0; dropVec idx)
+         pure []
+       | _ => WM.ub "kernel: clone does not start with clone_empty()" : WM Out) w ∧
+    Gen.Kernel.clone_fn_cmds n = [.cloneEach 0 0 n] ∧
+    Gen.Kernel.raw_clone_empty_in_fields =
+      [("let mem", "mem_builder.build(self.element_layout())"), ("mem_builder", "mem_builder"), ("mem", "mem"),
+       ("len", "0"), ("type_id", "self.type_id"), ("drop_fn", "self.drop_fn")] ∧
+    Gen.Kernel.anyvec_clone_empty_in_fields =
+      [("raw", "self.raw.clone_empty_in(mem_builder)"), ("clone_fn", "self.clone_fn"), ("phantom", "PhantomData")] ∧
+    Gen.Kernel.anyvec_clone_empty_fields =
+      [("raw", "self.raw.clone_empty()"), ("clone_fn", "self.clone_fn"), ("phantom", "PhantomData")] ∧
+    Gen.Kernel.anyvec_clone_fields =
+      [("raw", "self.raw.clone(self.clone_fn())"), ("clone_fn", "self.clone_fn"), ("phantom", "PhantomData")] :=
+  ⟨KernelTie.clone_tie w v x hv hl hc, KernelTie.clone_fn_tie n, KernelTie.clone_fields_tie.1,
+   KernelTie.clone_fields_tie.2.2.2.1, KernelTie.clone_fields_tie.2.2.1, KernelTie.clone_fields_tie.2.2.2.2⟩
+
+/-- … and what the model's `clone_empty_in` builds from that: a fresh, empty, live vector with the element type,
+layout, destructor and clone function of the source and the capacity the target backend builds -/
+theorem clone_empty_in_model (w : World) (v : Nat) (bk : Backend) (x : VecSt) (cap : Nat)
+    (hv : w.vecs[v]? = some x) (hl : x.live = true) (hb : VecSt.buildCap bk x.size x.align = .ok cap) :
+    ∃ w', cloneEmptyIn v bk w = (w', .ok w.vecs.length) ∧
+      w'.vecs = w.vecs ++ [{ x with bk := bk, cap := cap, cells := [], len := 0, gen := 0, live := true }] :=
+  KernelTie.cloneEmptyIn_model w v bk x cap hv hl hb
 
 end C08
 end AnyVec
